@@ -49,8 +49,9 @@ def gen_cases(tier, rng):
             j = int(rng.integers(0, max(1, L - 3)))
             k = int(rng.integers(j + 2, L)) if j + 2 < L else L - 1
             hist[k] = hist[j]
-        J = numpy.abs(numpy.array(s["J"]))
-        nz = numpy.sort(J[J > 0])
+        J = numpy.abs(numpy.triu(numpy.array(s["J"])))
+        nz = numpy.unique(J[J > 0])
+        # never exactly on a coupling (a cut-off equal to |J| is a rounding knife-edge: in-place basis round trips move J by an ulp)
         jc = r3(0.5 * (nz[0] + nz[-1])) if len(nz) >= 2 else (r3(1.5 * nz[0]) if len(nz) == 1 else 10.0)
         cases.append({"cls": "history", "sys": s, "hist": hist, "jcut_cm": jc, "seed": int(rng.integers(1 << 30)), "cost": L})
     return cases
